@@ -571,6 +571,7 @@ func (device *AbacoUDPReceiver) start() (err error) {
 		device.conn.SetReadDeadline(time.Now().Add(delay))
 
 		for {
+			vpoint("AbacoUDP.loop")
 			select {
 			case _, ok := <-device.sendmore:
 				if !ok {
@@ -656,6 +657,8 @@ func (device *AbacoUDPReceiver) samplePackets(maxSampleTime time.Duration) (allP
 
 // stop closes the UDP connection
 func (device *AbacoUDPReceiver) stop() error {
+	vpoint("AbacoUDP.stop")
+	defer vpoint("AbacoUDP.stopped")
 	err := device.conn.Close()
 	close(device.sendmore)
 	return err
